@@ -9,8 +9,8 @@
        first run = false (count 0 when the column starts with true) -> [bool_save]
    Wire format: uleb counts of alternating runs false, true, false, ...; only the first
    count may be 0; a trailing 0 is rejected.
-   Partial operations as [Panic]: bool.rs:1050 `slab_items += count` and the `.sum()` of
-   the slab lengths (usize overflow, debug build). *)
+   Untrusted counts (as of /repo a623e02f7): `slab_items.checked_add(count)` and the checked
+   fold of the slab lengths are BadFormat errors; no partial operation is left. *)
 From AM Require Import Base.Prelude Base.Leb128 Hexane.Hleb.
 Local Open Scope N_scope.
 
@@ -43,7 +43,7 @@ Definition bst : Type := (N * N * list N)%type.
 Definition bcount1 (st : bst) (c : N) : res bst :=
   let '(items, segs, done) := st in
   let items' := items + c in
-  if pow64 <=? items' then Panic
+  if pow64 <=? items' then Err
   else if bool_target <=? segs + 1 then Ok (0, 0, items' :: done)
   else Ok (items', segs + 1, done).
 
@@ -65,7 +65,7 @@ Fixpoint bruns (v : bool) (cs : list N) : list (N * bool) :=
 Definition bfinish (st : bst) (cs : list N) : res (list (N * bool)) :=
   let '(items, segs, done) := st in
   let lens := if 0 <? segs then items :: done else done in
-  if pow64 <=? bsum lens then Panic else Ok (bruns false cs).
+  if pow64 <=? bsum lens then Err else Ok (bruns false cs).
 
 Definition bool_load_counts (p : list N * bterm) : res (list (N * bool)) :=
   let (cs, t) := p in
@@ -109,5 +109,3 @@ Definition bool_save_runs (rs : list (N * bool)) : bytes := flat_map hleb_uenc (
 
 (* Column::<bool>::save of a column holding [l] *)
 Definition bool_save (l : list bool) : bytes := bool_save_runs (bgroup l).
-
-Definition bool_declared (b : bytes) : N := bsum (fst (bool_raw (S (length b)) true b)).
